@@ -145,7 +145,7 @@ Shapes == {<<1, 1>>, <<1, 3>>, <<3, 1>>, <<2, 2>>, <<2, 3>>, <<3, 2>>, <<3, 3>>,
            <<2, Chunk>>, <<Chunk, 2>>, <<2, 65535>>}                                  \* 65535: the uint16 limit
           \cup (IF Thorough THEN {<<1, 2>>, <<2, 1>>, <<3, 5>>, <<1, Chunk>>, <<Chunk, 1>>, <<3, Chunk>>, <<5, 5>>,
                                   <<4, 7>>, <<7, 4>>, <<3, 2 * Chunk>>} ELSE {})
-BigShapes == {<<150, 260>>} \cup (IF Thorough THEN {<<512, 512>>, <<300, 300>>} ELSE {})
+BigShapes == {<<150, 260>>, <<262, 260>>} \cup (IF Thorough THEN {<<512, 512>>, <<300, 300>>} ELSE {})   \* 150x260: one growth of the disjoint set (> 16384 provisional labels), 262x260: two (> 32768)
 BigContents == {"chk0", "dots", "full", "hstr"}
 
 Contents == {"empty", "full", "chk0", "chk1", "tl", "tr", "bl", "br", "ctr", "row0", "rowN", "col0", "colN",
